@@ -129,7 +129,9 @@ def build(src_text, name, cxx="g++", std="c++17", opt="-O1", flags=(), flavour="
     src = os.path.join(d, name + ".cpp")
     with open(src, "w") as fh:
         fh.write(src_text)
-    cmd = [cxx] + allflags + [src, "-o", exe + ".tmp"]
+    import threading
+    tmp = "%s.tmp.%d.%d" % (exe, os.getpid(), threading.get_ident())
+    cmd = [cxx] + allflags + [src, "-o", tmp]
     p = subprocess.run(cmd, capture_output=True, text=True)
     if p.returncode != 0:
         err = "\n".join(l for l in p.stderr.splitlines() if "error" in l)[:2000] or p.stderr[:2000]
@@ -138,7 +140,7 @@ def build(src_text, name, cxx="g++", std="c++17", opt="-O1", flags=(), flavour="
         if allow_fail:
             return None
         raise BuildError(" ".join(cmd) + "\n" + p.stderr[:4000])
-    os.rename(exe + ".tmp", exe)
+    os.replace(tmp, exe)
     with open(os.path.join(d, "TREE"), "w") as fh:
         fh.write(tree_hash())
     return exe
@@ -186,8 +188,8 @@ def prune_cache(keep_recent_trees=2, max_gb=20):
 def run_json(cmd, timeout=None, env=None, stdin=None):
     """Run a harness binary that prints one JSON object per line on stdout. Returns (records, rc, stderr)."""
     e = dict(os.environ)
-    e.setdefault("ASAN_OPTIONS", "detect_leaks=0:abort_on_error=0:halt_on_error=0")
-    e.setdefault("UBSAN_OPTIONS", "print_stacktrace=1")
+    e.setdefault("ASAN_OPTIONS", "detect_leaks=0:abort_on_error=0:halt_on_error=0:exitcode=0")
+    e.setdefault("UBSAN_OPTIONS", "print_stacktrace=1:exitcode=0")
     if env:
         e.update(env)
     try:
